@@ -64,8 +64,15 @@ def run_unit(unit, rng, ctx):
         U = U[0:1] + (U - U[0:1]) * (0.45 / np.abs(np.diff(U, axis=0)).max())
     dt = float(rng.choice([1e-15, 2e-15, 5e-16]))
     names = [str(x) for x in rng.choice(['Li', 'Na', 'S'], size=N)]
-    wrapped = bool(rng.integers(2))
-    X = U - np.floor(U) if wrapped else U
+    input_mode = str(rng.choice(['wrapped', 'unwrapped', 'random_images']))
+    if input_mode == 'wrapped':
+        X = U - np.floor(U)
+    elif input_mode == 'unwrapped':
+        X = U
+    else:
+        # every coordinate of every frame in an arbitrary periodic image (e.g. folded restarts)
+        X = U + rng.integers(-3, 4, size=U.shape)
+    ctx.count(f'input:{input_mode}')
     traj = gen.make_trajectory(m, gen.species_objects(names, rng=rng), X, time_step=dt)
     what = f'{kind}{"/rot" if rot else ""} T={T} N={N}'
     cart = (U - U[:1]) @ m
